@@ -233,6 +233,13 @@ func snapshotReaders(p *Prog) []string {
 			}
 		}
 		_ = hasPoint // the snapshot point may travel as a pointer, or inside a small value type
+		// ... or the store and the point are fields of the receiver (type txSource struct { tx *core.Transaction;
+		// before *sequence.Seq } with methods file / files)
+		if !hasStore && sig.Recv() != nil {
+			if sf, _ := readerRecvFields(sig.Recv().Type()); sf != "" {
+				hasStore = true
+			}
+		}
 		if !hasStore || sig.Results().Len() != 1 || !strings.HasSuffix(sig.Results().At(0).Type().String(), "internal/model.File") {
 			continue // a reader returns the version(s) it selected
 		}
@@ -318,6 +325,51 @@ func c02DispatchTable(p *Prog, fi *FuncInfo, readers ...string) ([]dispatchRow, 
 					}
 				case *ast.CallExpr:
 					isReader := len(readers) > 0 && p.callIs(fi.Pkg, x, readers...)
+					if isReader && p.staticCallee(fi.Pkg, x) == nil {
+						// a call through an interface (own.file(key)): the evaluator runs the method of the value's
+						// dynamic type, the reader is recognised there
+						if sel, ok := ast.Unparen(x.Fun).(*ast.SelectorExpr); ok {
+							if rv, err := env.Eval(sel.X); err == nil && rv != nil && (rv.Type != nil || (rv.Ptr != nil && rv.Ptr.Type != nil)) {
+								dt := rv.Type
+								if dt == nil {
+									dt = types.NewPointer(rv.Ptr.Type)
+								}
+								// the dynamic method is itself a reader (own = txSource{tx: &u.allStore}): recorded here
+								if obj, _, _ := types.LookupFieldOrMethod(dt, true, fi.Pkg.Types, sel.Sel.Name); obj != nil {
+									if m, ok := obj.(*types.Func); ok {
+										mk := fkey(m.Origin())
+										for _, rk := range readers {
+											if rk == mk || toggleRecvStar(rk) == mk {
+												if sf, pf := readerRecvFields(m.Type().(*types.Signature).Recv().Type()); sf != "" {
+													store, point := "?", "latest"
+													b := rv
+													for b.Ptr != nil {
+														b = b.Ptr
+													}
+													if sv := b.Fields[sf]; sv != nil && sv.Tag != "" {
+														store = sv.Tag
+													}
+													if pf != "" {
+														switch pv := b.Fields[pf]; {
+														case pv == nil && b.Complete, pv != nil && pv.Nil:
+															point = "latest"
+														case pv != nil && pv.Ptr != nil && pv.Ptr.C != nil && pv.Ptr.C.ExactString() == "5":
+															point = "snapshot-point"
+														default:
+															point = "?"
+														}
+													}
+													row.Reads = append(row.Reads, store+":"+point)
+													return &Val{Tag: "read"}, true
+												}
+											}
+										}
+									}
+								}
+								return nil, false
+							}
+						}
+					}
 					if !isReader {
 						// a reader handed on as a function value and called through the parameter it is bound to
 						if o := objOf(info, x.Fun); o != nil && f.Alias[o] != nil {
@@ -337,6 +389,37 @@ func c02DispatchTable(p *Prog, fi *FuncInfo, readers ...string) ([]dispatchRow, 
 											}
 										}
 									}
+								}
+							}
+						}
+					}
+					// a reader that is a method of a small value carrying the store and the point
+					if isReader {
+						if h := p.staticCallee(fi.Pkg, x); h != nil && h.Sig().Recv() != nil {
+							if sf, pf := readerRecvFields(h.Sig().Recv().Type()); sf != "" {
+								if sel, ok := ast.Unparen(x.Fun).(*ast.SelectorExpr); ok {
+									store, point := "?", "latest"
+									if rv, err := env.Eval(sel.X); err == nil && rv != nil {
+										b := rv
+										for b.Ptr != nil {
+											b = b.Ptr
+										}
+										if sv := b.Fields[sf]; sv != nil && sv.Tag != "" {
+											store = sv.Tag
+										}
+										if pf != "" {
+											switch pv := b.Fields[pf]; {
+											case pv == nil && b.Complete, pv != nil && pv.Nil:
+												point = "latest"
+											case pv != nil && pv.Ptr != nil && pv.Ptr.C != nil && pv.Ptr.C.ExactString() == "5":
+												point = "snapshot-point"
+											default:
+												point = "?"
+											}
+										}
+									}
+									row.Reads = append(row.Reads, store+":"+point)
+									return &Val{Tag: "read"}, true
 								}
 							}
 						}
@@ -520,7 +603,15 @@ func c02Dispatch(p *Prog, r *Report) {
 				continue
 			}
 		}
-		if bsObj == nil && setFlag == nil {
+		// ... or in a field of the receiver next to the store (txSource{tx, before})
+		var recvObj types.Object
+		recvPoint := ""
+		if bsObj == nil && setFlag == nil && fi.Sig().Recv() != nil {
+			if sf, pf := readerRecvFields(fi.Sig().Recv().Type()); sf != "" && pf != "" {
+				recvObj, recvPoint = paramObjs(fi)[-1], pf
+			}
+		}
+		if bsObj == nil && setFlag == nil && recvObj == nil {
 			r.Undecided("C02.b", k, p.pos(fi.Decl), "no snapshot-point parameter")
 			continue
 		}
@@ -536,6 +627,17 @@ func c02Dispatch(p *Prog, r *Report) {
 				} else {
 					env.Vars[bsObj] = &Val{Ptr: intVal(5)}
 				}
+			}
+			if recvObj != nil {
+				pv := &Val{Ptr: intVal(5)}
+				if nilCase {
+					pv = &Val{Nil: true}
+				}
+				rv := &Val{Fields: map[string]*Val{recvPoint: pv}}
+				if _, isPtr := recvObj.Type().(*types.Pointer); isPtr {
+					rv = &Val{Ptr: rv}
+				}
+				env.Vars[recvObj] = rv
 			}
 			if setFlag != nil {
 				for _, o := range paramObjs(fi) {
@@ -1311,4 +1413,26 @@ func (p *Prog) readerKind(fi *FuncInfo) string {
 		return "before-only"
 	}
 	return ""
+}
+
+// readerRecvFields: the receiver type is a struct with a field holding a transaction store (*core.Transaction) and,
+// optionally, one holding the snapshot point (*sequence.Seq); it returns their names.
+func readerRecvFields(t types.Type) (storeField, pointField string) {
+	if pt, ok := t.(*types.Pointer); ok {
+		t = pt.Elem()
+	}
+	st, ok := t.Underlying().(*types.Struct)
+	if !ok {
+		return "", ""
+	}
+	for i := 0; i < st.NumFields(); i++ {
+		ft := st.Field(i).Type().String()
+		switch {
+		case strings.HasPrefix(ft, "*") && strings.HasSuffix(ft, "internal/model/core.Transaction"):
+			storeField = st.Field(i).Name()
+		case strings.HasPrefix(ft, "*") && strings.HasSuffix(ft, "sequence.Seq"):
+			pointField = st.Field(i).Name()
+		}
+	}
+	return storeField, pointField
 }
